@@ -190,12 +190,14 @@ def run(idx, rep, tier):
     # ------------------------------------------------------------ clause 4: flatten / unflatten agreement
     flatten_protocol(idx, rep)
     class_table_ownership(idx, rep)
+    leaf_classification(idx, rep)
 
     rep.floor("write-site", 90)
     rep.floor("public-root-param-write", 150)
     rep.floor("operator-mutation", 6)
     rep.floor("declare-annotation", 1)
     rep.floor("flatten-protocol", 5)
+    rep.floor("leaf-classification", 1)
     rep.explanation = ("Ownership analysis: every in-place write site in cola/ (update_array, augmented assignment, subscript/attribute store, out=, mutating "
                        "methods, setattr) is classified by the origins of its target (fresh / view / parameter / self attribute / global), flow-sensitively per "
                        "function, with parameter-write and return-alias summaries propagated through resolved calls (dispatch rules, methods, loop-carried "
@@ -581,3 +583,92 @@ def flatten_protocol(idx, rep):
                         mixed.append(f"{ci.name}.{t.attr}")
     if mixed:
         rep.note("attributes assigned from a conditional expression (array-ness may differ between instances; history clause not decided): " + ", ".join(sorted(set(mixed))))
+
+
+def leaf_classification(idx, rep):
+    """The first value ever stored in an attribute decides, for the whole class, whether that attribute is a pytree child or static
+    aux data.  The decision must therefore depend on the KIND of the value only: an operator-valued attribute has to be classified
+    dynamic whatever the operator contains, otherwise an array-free operator (an Identity) stored first makes the attribute static for
+    every later instance of the class (classes built with keyword arguments -- Sliced -- are not split by the kinds of their parts) and
+    the arrays of those instances end up in the aux data.  The classification expression is evaluated for the scenario
+    'value is an operator without array leaves': is_array(value) = False, isinstance(value, LinearOperator) = True,
+    any(is_array over the flattened value) = False."""
+    if not idx.has_cls("LinearOperator"):
+        return
+    base = idx.cls("LinearOperator")
+    sa_ = base.methods.get("__setattr__")
+    if sa_ is None:
+        rep.missing_anchor("LinearOperator.__setattr__")
+        return
+    vp = sa_.params[2] if len(sa_.params) > 2 else None
+    stores = [st for st in df.body_nodes(sa_.node) if isinstance(st, ast.Assign) and len(st.targets) == 1 and isinstance(st.targets[0], ast.Subscript)
+              and isinstance(st.targets[0].value, ast.Attribute) and ast.unparse(st.targets[0].value.value).replace(" ", "") in ("self.__class__", "type(self)")]
+    if not stores or vp is None:
+        rep.missing_anchor("store into the per-class classification table in LinearOperator.__setattr__")
+        return
+
+    def ev(e, fi, env, depth=0):
+        """True / False / None under the scenario; env maps local names to ('value',) or expressions"""
+        if isinstance(e, ast.Constant) and isinstance(e.value, bool):
+            return e.value
+        if isinstance(e, ast.BoolOp):
+            vals = [ev(v, fi, env, depth) for v in e.values]
+            if isinstance(e.op, ast.Or):
+                return True if any(v is True for v in vals) else (False if all(v is False for v in vals) else None)
+            return False if any(v is False for v in vals) else (True if all(v is True for v in vals) else None)
+        if isinstance(e, ast.BinOp) and isinstance(e.op, (ast.BitOr, ast.BitAnd)):
+            l, r = ev(e.left, fi, env, depth), ev(e.right, fi, env, depth)
+            if isinstance(e.op, ast.BitOr):
+                return True if True in (l, r) else (False if l is False and r is False else None)
+            return False if False in (l, r) else (True if l is True and r is True else None)
+        if isinstance(e, ast.UnaryOp) and isinstance(e.op, ast.Not):
+            v = ev(e.operand, fi, env, depth)
+            return None if v is None else not v
+        if isinstance(e, ast.Name):
+            v = df.resolve_value(fi.node, e)
+            if v is not e:
+                return ev(v, fi, env, depth)
+            return None
+        if isinstance(e, ast.Call):
+            fn = ast.unparse(e.func)
+            is_value = lambda a: isinstance(a, ast.Name) and env.get(a.id) == "value"  # noqa: E731
+            if fn.split(".")[-1] == "is_array" and len(e.args) == 1 and is_value(e.args[0]):
+                return False
+            if fn == "isinstance" and len(e.args) == 2 and is_value(e.args[0]):
+                classes = e.args[1].elts if isinstance(e.args[1], ast.Tuple) else [e.args[1]]
+                names = {ast.unparse(c).split(".")[-1] for c in classes}
+                if "LinearOperator" in names:
+                    return True
+                if names <= {"list", "tuple", "dict", "set", "int", "float", "complex", "str", "bool", "ndarray", "Tensor"}:
+                    return False
+                return None
+            if fn in ("any", "all") and len(e.args) == 1:
+                # a reduction of is_array over something derived from the flattened value: the scenario has no array leaves
+                a = e.args[0]
+                over_leaves = any(isinstance(c, ast.Call) and ast.unparse(c.func).endswith("tree_flatten") for c in ast.walk(df.resolve_value(fi.node, a) if isinstance(a, ast.Name) else a))
+                tests_array = any((isinstance(n, ast.Name) and n.id == "is_array") or (isinstance(n, ast.Attribute) and n.attr == "is_array") for n in ast.walk(a))
+                if over_leaves and tests_array:
+                    return False if fn == "any" else None
+                return None
+            if depth < 3:
+                r = idx.resolve_expr(fi.module, e.func, fi)
+                if r is not None and r.kind == "funcs":
+                    callee = r.val[-1]
+                    rets = [x for x in df.returns(callee.node) if x.value is not None]
+                    b = df.bind_call(e, callee.params)
+                    env2 = {p: "value" for p, a in b.items() if a is not None and is_value(a)}
+                    if rets:
+                        vals = {ev(x.value, callee, env2, depth + 1) for x in rets}
+                        return vals.pop() if len(vals) == 1 else None
+        return None
+
+    for st in stores:
+        v = ev(st.value, sa_, {vp: "value"})
+        construct = f"LinearOperator.__setattr__:{ast.unparse(st.targets[0].value.attr if isinstance(st.targets[0].value.attr, ast.AST) else ast.Name(st.targets[0].value.attr))}"
+        txt = ast.unparse(df.resolve_value(sa_.node, st.value) if isinstance(st.value, ast.Name) else st.value)[:110]
+        rep.decide(v, "leaf-classification", construct,
+                   f"`{txt}` " + {True: "classifies an operator-valued attribute as a pytree child whatever the operator contains",
+                                   False: "classifies an operator-valued attribute by the arrays it happens to contain: an array-free operator stored first makes the attribute static "
+                                          "for every later instance of the class, whose arrays then travel in the aux data (no leaves, `.to()` and substitution skip them)",
+                                   None: "could not be evaluated for an operator without array leaves"}[v],
+                   detail="" if v is not False else "content-dependent", locs=[idx.loc(sa_.module, st)])
